@@ -433,7 +433,7 @@ impl Prop for CapProp {
     fn runs(&self, tier: Tier) -> u64 {
         match tier {
             Tier::Quick => 40_000,
-            Tier::Thorough => 1_000_000,
+            Tier::Thorough => 500_000,
         }
     }
     fn gen(&self, rng: &mut Rng, tier: Tier, _idx: u64) -> Case {
@@ -443,11 +443,11 @@ impl Prop for CapProp {
                 1 => Size::Medium,
                 _ => Size::Large,
             },
-            Tier::Thorough => match rng.weighted(&[60, 30, 9, 1]) {
+            Tier::Thorough => match rng.weighted(&[120, 60, 19, 1]) {
                 0 => Size::Small,
                 1 => Size::Medium,
                 2 => Size::Large,
-                _ => Size::Huge(1200),
+                _ => Size::Huge(700),
             },
         };
         let seq = gen_seq_case(rng, size, None);
